@@ -659,6 +659,13 @@ func (w *World) curRow(in *Inst, e int) (slot uint64, p int, ok bool) {
 	return
 }
 
+// faultStmt: fault class of GnosisSlot.tla (MaybeTriggerDecryptionF) -> sqlc statement
+var faultStmt = map[string]string{
+	"synced": "GetTransactionSubmittedEventsSyncedUntil", "keyperset": "GetKeyperSet", "registered": "IsValidatorRegistered",
+	"incr": "IncrementTxPointerAge", "eon": "GetEonForBlockNumber", "getptr": "GetTxPointer", "initptr": "SetTxPointer",
+	"count": "GetTransactionSubmittedEventCount", "events": "GetTransactionSubmittedEvents", "setcur": "SetCurrentDecryptionTrigger",
+}
+
 // keyperOp applies one operation to one keyper and returns what it did (without St).
 func (w *World) keyperOp(ctx context.Context, in *Inst, o Op) Obs {
 	u := w.u
@@ -676,7 +683,23 @@ func (w *World) keyperOp(ctx context.Context, in *Inst, o Op) Obs {
 		return false
 	}
 	switch o.Op {
-	case "slot":
+	case "slot", "slotf":
+		if o.Op == "slotf" {
+			// one-shot database error on the first execution of the statement of fault class o.G
+			stmt, ok := faultStmt[o.G]
+			if !ok {
+				ob.Out, ob.Note = "nil", "unknown fault class "+o.G
+				return ob
+			}
+			var fired int32
+			in.pg.SetFault(func(ev fakepg.Event) fakepg.Fault {
+				if ev.Kind == fakepg.KindExecute && ev.Stmt == stmt && atomic.CompareAndSwapInt32(&fired, 0, 1) {
+					return fakepg.Fault{Kind: fakepg.FaultSQLError, Code: "57014", Message: "verif: injected statement failure"}
+				}
+				return fakepg.None
+			})
+			defer in.pg.SetFault(nil)
+		}
 		if o.S > in.hi {
 			in.hi = o.S
 		}
